@@ -7,7 +7,7 @@ Theorem C06_resolve_sound : forall regs ls sc n v,
   lookup_label regs ls sc n = Some v ->
   (exists f r, sc = ScLocal f r /\ lfind ls (KLocal r n) = Some v)
   \/ lfind ls (KFile (scope_file sc) n) = Some v
-  \/ (mem n regs = false /\ lfind ls (KGlobal n) = Some v).
+  \/ (reg_mem n regs = false /\ lfind ls (KGlobal n) = Some v).
 Proof. exact lookup_sound. Qed.
 Print Assumptions C06_resolve_sound.
 
@@ -39,7 +39,7 @@ Proof. exact set_label_keyword. Qed.
 Print Assumptions C06_keyword_rejected.
 
 Theorem C06_register_not_a_label : forall regs ls f n,
-  mem n regs = true -> lfind ls (KFile f n) = None -> lookup_label regs ls (ScFile f) n = None.
+  reg_mem n regs = true -> lfind ls (KFile f n) = None -> lookup_label regs ls (ScFile f) n = None.
 Proof. exact register_not_a_label. Qed.
 Print Assumptions C06_register_not_a_label.
 
